@@ -39,27 +39,43 @@ Proof. unfold canon_schnorr, len_is. destruct (Nat.eqb_spec (length v) 64) as [E
     + destruct (Nat.eqb_spec (length v) 64); [lia|]. destruct (Nat.eqb_spec (length v) 65); [|lia]. rewrite K.
       destruct (N.eqb_spec (b2n (last v x00)) 0); [contradiction|]. auto. Qed.
 
-(* ---- TapTree: the canonical form has the same length as the input (it is the same leaves in another order) ---- *)
-Definition leaf_sz (s : bytes) : nat := 2 + length (enc (c_varbytes maxvec) s).
-Definition item_scripts (items : list item) : list bytes := flat_map (fun it => match it with ILeaf _ s _ => [s] | IHidden _ _ => [] end) items.
-Lemma taptree_items_len : forall fuel b items, taptree_items maxvec fuel b = Some items -> length b = list_sum (map leaf_sz (item_scripts items)).
+(* ---- TapTree: Deserialize then Serialize gives back the accepted bytes.  The builder (C15 model, NodeInfo::combine(child, node)
+   since fix aee9a45) holds the leaves in depth-first order with merkle_branch.len() = depth, so Serialize re-writes the
+   (depth, version, script) triples it read.  Uses `builder_complete` of Proofs/Taproot.v; the facts about the leaf order are
+   proved here. ---- *)
+Definition item_enc (it : item) : bytes :=
+  match it with ILeaf d s v => n2b d :: v :: enc (c_varbytes maxvec) s | IHidden _ _ => [] end.
+Definition is_leaf (it : item) : Prop := match it with ILeaf _ _ _ => True | IHidden _ _ => False end.
+Fixpoint no_hidden (t : tree) : Prop := match t with Leaf _ _ => True | Hidden _ => False | Node a b => no_hidden a /\ no_hidden b end.
+
+Lemma taptree_items_exact : forall fuel b items, taptree_items maxvec fuel b = Some items -> b = flat_map item_enc items /\ Forall is_leaf items.
 Proof. induction fuel as [|f IH]; intros b items H; [discriminate|]. cbn [taptree_items] in H.
-  destruct b as [|d [|v r]]; [inversion H; reflexivity|discriminate|].
+  destruct b as [|d [|v r]]; [inversion H; split; [reflexivity|constructor]|discriminate|].
   destruct (dec (c_varbytes maxvec) r) as [[script rest]|] eqn:D; [|discriminate]. destruct (leafver_ok (b2n v)); [|discriminate].
-  destruct (taptree_items maxvec f rest) as [l|] eqn:T; [|discriminate]. inversion H; subst.
-  apply (l_exact (c_varbytes_lawful maxvec)) in D. subst r. cbn [item_scripts flat_map app map list_sum fold_right length]. rewrite app_length, (IH _ _ T). unfold leaf_sz, item_scripts. unfold list_sum. cbn [fold_right]. lia. Qed.
-Lemma leaf_paths_scripts t : forall d, map l_script (leaf_paths Hleaf Hbranch t) = item_scripts (dfs t d).
-Proof. induction t as [s v|h|a IHa b IHb]; intros d; cbn [leaf_paths dfs item_scripts flat_map app map]; try reflexivity.
-  rewrite map_app, !map_map. cbn [snoc l_script]. unfold item_scripts in *. rewrite flat_map_app, <- (IHa (S d)), <- (IHb (S d)). reflexivity. Qed.
-Lemma list_sum_rev l : list_sum (rev l) = list_sum l.
-Proof. induction l as [|x l IH]; [reflexivity|]. cbn [rev]. rewrite list_sum_app, IH. unfold list_sum. cbn [fold_right]. lia. Qed.
-Lemma taptree_ser_len n : length (taptree_ser maxvec n) = list_sum (map leaf_sz (map l_script (n_leaves n))).
-Proof. unfold taptree_ser. induction (n_leaves n) as [|l ls IH]; [reflexivity|]. cbn [flat_map map list_sum fold_right]. rewrite app_length, IH. unfold leaf_sz, list_sum. cbn [length fold_right]. lia. Qed.
-Lemma taptree_len v c : canon_taptree v = POk c -> length c = length v.
+  destruct (taptree_items maxvec f rest) as [l|] eqn:T; [|discriminate]. inversion H; subst. destruct (IH _ _ T) as [-> F].
+  apply (l_exact (c_varbytes_lawful maxvec)) in D. subst r. split; [|constructor; [exact I|exact F]].
+  cbn [flat_map item_enc]. rewrite n2b_b2n. cbn [app]. reflexivity. Qed.
+Lemma dfs_leaf_only t : forall d, Forall is_leaf (dfs t d) -> no_hidden t.
+Proof. induction t as [s v|h|a IHa b IHb]; intros d F; cbn [dfs no_hidden] in *; [exact I|now inversion F|].
+  apply Forall_app in F as [Fa Fb]. split; [eapply IHa|eapply IHb]; eauto. Qed.
+Lemma pv_node_hash t : n_hash (node_of Hleaf Hbranch t) = root Hleaf Hbranch t.
+Proof. induction t as [s v|h|a IHa b IHb]; cbn [node_of root combine_tot n_hash new_leaf new_hidden]; try reflexivity. now rewrite IHa, IHb. Qed.
+Lemma pv_node_leaves t : n_leaves (node_of Hleaf Hbranch t) = leaf_paths Hleaf Hbranch t.
+Proof. induction t as [s v|h|a IHa b IHb]; cbn [node_of leaf_paths combine_tot n_leaves new_leaf new_hidden]; try reflexivity.
+  now rewrite !pv_node_hash, IHa, IHb. Qed.
+Lemma leaf_paths_dfs t : no_hidden t -> forall d,
+  map (fun l => ILeaf (N.of_nat (d + length (l_branch l))) (l_script l) (l_ver l)) (leaf_paths Hleaf Hbranch t) = dfs t d.
+Proof. induction t as [s v|h|a IHa b IHb]; intros NH d; cbn [leaf_paths dfs map no_hidden] in *.
+  - cbn [l_branch l_script l_ver length]. now rewrite Nat.add_0_r.
+  - contradiction.
+  - destruct NH as [Na Nb]. rewrite map_app, !map_map, <- (IHa Na (S d)), <- (IHb Nb (S d)). f_equal; apply map_ext; intros l;
+      cbn [snoc l_branch l_script l_ver]; rewrite app_length; cbn [length]; do 2 f_equal; lia. Qed.
+Lemma taptree_id v c : canon_taptree v = POk c -> c = v.
 Proof. unfold PsetValues.canon_taptree, taptree_node. destruct (taptree_items maxvec (S (length v)) v) as [items|] eqn:T; [|discriminate].
-  destruct (run Hleaf Hbranch items []) as [[|[n|] [|? ?]]|] eqn:R; try discriminate. intros H; inversion H; subst.
-  destruct (builder_complete Hleaf Hbranch items _ R eq_refl) as (t & _ & -> & E & _). inversion E; subst n.
-  rewrite taptree_ser_len, (taptree_items_len _ _ _ T), node_of_leaves, map_rev, map_rev, list_sum_rev, (leaf_paths_scripts t 0). reflexivity. Qed.
+  destruct (run Hleaf Hbranch items []) as [[|[n|] [|? ?]]|] eqn:R; try discriminate. intros H; injection H as <-.
+  destruct (builder_complete Hleaf Hbranch items _ R eq_refl) as (t & _ & -> & E & _). injection E as ->.
+  destruct (taptree_items_exact _ _ _ T) as [-> F]. pose proof (dfs_leaf_only t 0 F) as NH.
+  unfold taptree_ser. rewrite pv_node_leaves, <- (leaf_paths_dfs t NH 0), flat_map_concat_map, flat_map_concat_map, map_map. reflexivity. Qed.
 
 (* ---- the two laws ---- *)
 Theorem vcanon_size t k v c : vcanon t k v = POk c -> (length c <= length v)%nat.
@@ -71,17 +87,15 @@ Proof. destruct t; cbn [PsetValues.vcanon]; intros H;
   - apply (via_exact _ (c_txout_nowit_lawful pt_ok maxvec)) in H. subst; lia.
   - apply (via_exact _ (c_stack_lawful maxvec cap_vecu8)) in H. subst; lia.
   - now apply schnorr_idem in H.
-  - apply taptree_len in H. lia.
-  - destruct (33 <=? length v)%nat; [|discriminate]. apply guard_ok in H as [-> _]. apply firstn_len_le.
-  - destruct (33 <=? length v)%nat; [|discriminate]. apply guard_ok in H as [-> _]. apply firstn_len_le.
+  - apply taptree_id in H. subst; lia.
   - unfold preimage in H. destruct (bytes_eqb (Hrip v) k); inversion H; subst; lia.
   - unfold preimage in H. destruct (bytes_eqb (Hsha v) k); inversion H; subst; lia.
   - unfold preimage in H. destruct (bytes_eqb (Hh160 v) k); inversion H; subst; lia.
   - unfold preimage in H. destruct (bytes_eqb (Hh256 v) k); inversion H; subst; lia.
 Qed.
 
-Theorem vcanon_idem t k v c : t <> TyTapTree -> vcanon t k v = POk c -> vcanon t k c = POk c.
-Proof. intros NT. destruct t; try congruence; cbn [PsetValues.vcanon]; intros H;
+Theorem vcanon_idem t k v c : vcanon t k v = POk c -> vcanon t k c = POk c.
+Proof. destruct t; cbn [PsetValues.vcanon]; intros H;
   try (apply guard_ok in H as [-> G]; now apply guard_true);
   try (inversion H; subst; reflexivity).
   - destruct (vi_dec v) as [[n r]|] eqn:D; [|discriminate]. inversion H; subst.
@@ -90,19 +104,16 @@ Proof. intros NT. destruct t; try congruence; cbn [PsetValues.vcanon]; intros H;
   - pose proof (via_exact _ (c_txout_nowit_lawful pt_ok maxvec) _ _ H). now subst.
   - pose proof (via_exact _ (c_stack_lawful maxvec cap_vecu8) _ _ H). now subst.
   - now apply schnorr_idem in H.
-  - destruct (Nat.leb_spec 33 (length v)) as [L|]; [|discriminate]. apply guard_ok in H as [-> G].
-    assert (E : length (firstn 33 v) = 33%nat) by (rewrite firstn_length; lia). rewrite E. cbn [Nat.leb]. rewrite firstn_idem. now apply guard_true.
-  - destruct (Nat.leb_spec 33 (length v)) as [L|]; [|discriminate]. apply guard_ok in H as [-> G].
-    assert (E : length (firstn 33 v) = 33%nat) by (rewrite firstn_length; lia). rewrite E. cbn [Nat.leb]. rewrite firstn_idem. now apply guard_true.
+  - pose proof (taptree_id _ _ H). now subst.
   - unfold preimage in *. destruct (bytes_eqb (Hrip v) k) eqn:E; inversion H; subst. now rewrite E.
   - unfold preimage in *. destruct (bytes_eqb (Hsha v) k) eqn:E; inversion H; subst. now rewrite E.
   - unfold preimage in *. destruct (bytes_eqb (Hh160 v) k) eqn:E; inversion H; subst. now rewrite E.
   - unfold preimage in *. destruct (bytes_eqb (Hh256 v) k) eqn:E; inversion H; subst. now rewrite E.
 Qed.
 
-Theorem kcanon_law t kd k : t <> TyTapTree -> kcanon t kd = Some k -> k <> [] /\ kcanon t k = Some k /\ (length k <= length kd)%nat.
-Proof. intros NT. unfold PsetValues.kcanon. destruct (vcanon t [] kd) as [c|] eqn:V; [|discriminate]. destruct c as [|b c]; [discriminate|].
-  intros H; inversion H; subst. split; [discriminate|]. rewrite (vcanon_idem _ _ _ _ NT V). split; [reflexivity|]. eapply vcanon_size; eauto. Qed.
+Theorem kcanon_law t kd k : kcanon t kd = Some k -> k <> [] /\ kcanon t k = Some k /\ (length k <= length kd)%nat.
+Proof. unfold PsetValues.kcanon. destruct (vcanon t [] kd) as [c|] eqn:V; [|discriminate]. destruct c as [|b c]; [discriminate|].
+  intros H; inversion H; subst. split; [discriminate|]. rewrite (vcanon_idem _ _ _ _ V). split; [reflexivity|]. eapply vcanon_size; eauto. Qed.
 
 (* the comparator projections are injective (the raw key is their last component) *)
 Lemma key_proj_inj t a b : key_proj t a = key_proj t b -> a = b.
@@ -110,6 +121,11 @@ Proof. destruct t; cbn [key_proj]; unfold proj_bytes, proj_pubkey, proj_xpub; tr
   destruct (len_is 33 a), (len_is 33 b); intros H; now inversion H. Qed.
 Lemma proj_prop_inj a b : proj_prop maxvec a = proj_prop maxvec b -> a = b.
 Proof. unfold proj_prop. destruct (prop_dec maxvec a) as [[[? ?] ?]|], (prop_dec maxvec b) as [[[? ?] ?]|]; intros H; now inversion H. Qed.
+
+(* commitments and generators are exactly 33 bytes and come back unchanged *)
+Lemma commitment_length k v c : (vcanon TyPedersen k v = POk c \/ vcanon TyGenerator k v = POk c) -> c = v /\ length v = 33%nat.
+Proof. intros [H|H]; cbn [PsetValues.vcanon] in H; apply guard_ok in H as [-> G]; (split; [reflexivity|]);
+  unfold conf_wf in G; destruct v; try discriminate; apply andb_true_iff in G as [G _]; apply andb_true_iff in G as [_ G]; now apply Nat.eqb_eq. Qed.
 
 (* a bad preimage is an error *)
 Lemma preimage_rejects H k v : H v <> k -> preimage H k v = PErr EPreimage.
